@@ -19,6 +19,26 @@ def regenerate():
             log("[setup] translator %s failed: %s" % (name, str(e)[:500]))
 
 
+def prebuild():
+    """compile every harness driver now, in parallel (io_drv alone takes minutes under ASan); each check would
+    otherwise build its own on first use.  Failures are left to the check that needs the driver."""
+    from concurrent.futures import ThreadPoolExecutor
+    import ovmb_common as oc
+    from props import c15
+
+    jobs = [lambda: build.driver("kernel_drv"), lambda: build.driver("hex_drv"), lambda: build.driver("vec_drv"),
+            lambda: build.driver("conc_drv", extra=("-DCONC_SNAPSHOT",)), lambda: build.driver("conc_drv", flavor="tsan"),
+            lambda: build.driver("ascii_drv"), lambda: build.driver("prop_drv"), lambda: oc.driver("io_drv"), c15.driver]
+
+    def one(j):
+        try:
+            j()
+        except Exception as e:
+            log("[setup] driver build failed: %s" % str(e)[:300])
+    with ThreadPoolExecutor(len(jobs)) as ex:
+        list(ex.map(one, jobs))
+
+
 def main():
     regenerate()
     ok, lg = build.lake_build()
@@ -26,6 +46,8 @@ def main():
         log(lg[-5000:])
         sys.exit(1)
     build.ovm_lib("asan")
+    build.ovm_lib("tsan")
+    prebuild()
     log("[setup] done")
 
 
